@@ -65,6 +65,12 @@ def rec_lattice(seed):
                           ('xcentroid', 'xcen_k', S), ('ycentroid', 'ycen_k', S), ('sum', 'sum_k', S), ('sum_aper_area', 'sumarea_k', S)):
         rec[key], rec['nan'][name.replace('centroid', 'cen')] = fk(vals[name], sc)
     rec['mad_k'], _ = fk(float(getattr(vals['mad_std'], 'value', vals['mad_std'])) / 1.482602218505602, S)
+    # moment-based shape: the covariance matrix (second central moments over the pixel set), in 1/256 px^2
+    with warnings.catch_warnings():
+        warnings.simplefilter('ignore')
+        cv = [float(getattr(getattr(st, n), 'value', getattr(st, n))) for n in ('covar_sigx2', 'covar_sigxy', 'covar_sigy2')]
+    rec['nan']['cov'] = not all(np.isfinite(cv))
+    rec['cov'] = [int(round(x * 256)) if np.isfinite(x) else 0 for x in cv]
     ca = float(getattr(vals['center_aper_area'], 'value', vals['center_aper_area']))
     rec['npix'] = int(round(ca)) if np.isfinite(ca) else -1
     return rec
